@@ -4,14 +4,15 @@ import (
 	"fmt"
 	"math/big"
 
+	bgpoly "github.com/tuneinsight/lattigo/v6/circuits/bgv/polynomial"
 	cklt "github.com/tuneinsight/lattigo/v6/circuits/ckks/lintrans"
 	ckpoly "github.com/tuneinsight/lattigo/v6/circuits/ckks/polynomial"
 	"github.com/tuneinsight/lattigo/v6/core/rgsw"
 	"github.com/tuneinsight/lattigo/v6/core/rlwe"
-	"github.com/tuneinsight/lattigo/v6/utils/bignum"
 	"github.com/tuneinsight/lattigo/v6/ring"
 	"github.com/tuneinsight/lattigo/v6/schemes/bgv"
 	"github.com/tuneinsight/lattigo/v6/schemes/ckks"
+	"github.com/tuneinsight/lattigo/v6/utils/bignum"
 
 	"verifsim/catalog"
 	"verifsim/core"
@@ -49,6 +50,23 @@ type c09Sys struct {
 	rg   *rgsw.Evaluator
 	lt   *cklt.Evaluator
 	poly *ckpoly.Evaluator
+	bpol *bgpoly.Evaluator
+}
+
+// c09ArgModified is set by a catalog operation that finds one of its non-ciphertext arguments
+// (a polynomial, a transformation) changed by the call; the history runner reports it.
+var c09ArgModified string
+
+func hashBigPoly(p bignum.Polynomial) uint64 {
+	h := uint64(len(p.Coeffs))*31 + uint64(p.Basis)
+	for _, c := range p.Coeffs {
+		if c == nil {
+			h = core.SplitMix64(h ^ 0x6e696c)
+			continue
+		}
+		h = core.SplitMix64(h ^ core.HashString(c[0].Text('p', 0)+"|"+c[1].Text('p', 0)))
+	}
+	return h
 }
 
 // --- integer scheme -----------------------------------------------------------------
@@ -110,7 +128,8 @@ func c09BGV(ctx *core.RunCtx, scaleInvariant bool) *c09Scheme {
 	}
 	sc := &c09Scheme{name: name, params: bp.Parameters}
 	sc.newEval = func() any {
-		return &c09Sys{ev: bgv.NewEvaluator(bp, cc.evk, scaleInvariant), rg: rgsw.NewEvaluator(bp.Parameters, cc.evk)}
+		e := bgv.NewEvaluator(bp, cc.evk, scaleInvariant)
+		return &c09Sys{ev: e, rg: rgsw.NewEvaluator(bp.Parameters, cc.evk), bpol: bgpoly.NewEvaluator(bp, e)}
 	}
 	sc.newCt = func(deg, level int) *rlwe.Ciphertext { return bgv.NewCiphertext(bp, deg, level) }
 	sc.keyHash = func() uint64 { return hashKeySet(cc.evk) }
@@ -189,12 +208,31 @@ func c09BGV(ctx *core.RunCtx, scaleInvariant bool) *c09Scheme {
 	}
 	ev := func(x any) *bgv.Evaluator { return x.(*c09Sys).ev.(*bgv.Evaluator) }
 	scal := []int{vCt, vPt, vVec, vU64, vI64, vInt, vBig}
+	slotsA, slotsB, slotsC := []int{}, []int{}, []int{}
+	for i := 0; i < bp.MaxSlots(); i++ {
+		switch {
+		case i%2 == 0:
+			slotsA = append(slotsA, i)
+		case i%4 == 1:
+			slotsB = append(slotsB, i)
+		default:
+			slotsC = append(slotsC, i)
+		}
+	}
+	pvA, errA := bgpoly.NewPolynomialVector([][]uint64{{1, 2, 3, 4}, {5, 0, 7, 1}}, map[int][]int{0: slotsA, 1: slotsB})
+	pvB, errB := bgpoly.NewPolynomialVector([][]uint64{{2, 0, 1, 9}}, map[int][]int{0: slotsC})
+	if errA != nil || errB != nil {
+		ctx.Harness("polynomial vectors: %v %v", errA, errB)
+	}
+	bgvPolys := []any{bgpoly.NewPolynomial([]uint64{3, 1, 4, 1}), pvA, pvB}
 
 	sc.ops = []c09Op{
 		{name: "Add", op1: scal, deg: degAdd, call: func(e any, a *rlwe.Ciphertext, b any, k int, o *rlwe.Ciphertext) error { return ev(e).Add(a, b, o) }},
 		{name: "Sub", op1: scal, deg: degAdd, call: func(e any, a *rlwe.Ciphertext, b any, k int, o *rlwe.Ciphertext) error { return ev(e).Sub(a, b, o) }},
 		{name: "Mul", op1: scal, deg: degMul, call: func(e any, a *rlwe.Ciphertext, b any, k int, o *rlwe.Ciphertext) error { return ev(e).Mul(a, b, o) }},
-		{name: "MulRelin", op1: scal, deg: degRelin, call: func(e any, a *rlwe.Ciphertext, b any, k int, o *rlwe.Ciphertext) error { return ev(e).MulRelin(a, b, o) }},
+		{name: "MulRelin", op1: scal, deg: degRelin, call: func(e any, a *rlwe.Ciphertext, b any, k int, o *rlwe.Ciphertext) error {
+			return ev(e).MulRelin(a, b, o)
+		}},
 		{name: "MulScaleInvariant", op1: []int{vCt, vPt, vVec, vU64}, deg: degMul, call: func(e any, a *rlwe.Ciphertext, b any, k int, o *rlwe.Ciphertext) error {
 			return ev(e).MulScaleInvariant(a, b, o)
 		}},
@@ -208,7 +246,9 @@ func c09BGV(ctx *core.RunCtx, scaleInvariant bool) *c09Scheme {
 			return ev(e).MulRelinThenAdd(a, b, o)
 		}},
 		{name: "Rescale", op1: []int{vNone}, deg: degSame, call: func(e any, a *rlwe.Ciphertext, b any, k int, o *rlwe.Ciphertext) error { return ev(e).Rescale(a, o) }},
-		{name: "Relinearize", op1: []int{vNone}, deg: degOne, call: func(e any, a *rlwe.Ciphertext, b any, k int, o *rlwe.Ciphertext) error { return ev(e).Relinearize(a, o) }},
+		{name: "Relinearize", op1: []int{vNone}, deg: degOne, call: func(e any, a *rlwe.Ciphertext, b any, k int, o *rlwe.Ciphertext) error {
+			return ev(e).Relinearize(a, o)
+		}},
 		{name: "RotateColumns", op1: []int{vNone}, ks: c09Rotations, deg: degOne, call: func(e any, a *rlwe.Ciphertext, b any, k int, o *rlwe.Ciphertext) error {
 			return ev(e).RotateColumns(a, k, o)
 		}},
@@ -231,6 +271,20 @@ func c09BGV(ctx *core.RunCtx, scaleInvariant bool) *c09Scheme {
 		}},
 		{name: "rgsw.ExternalProduct", op1: []int{vRGSW}, needDeg1: true, needMaxLevel: true, callerSetsMeta: true, deg: degOne, call: func(e any, a *rlwe.Ciphertext, b any, k int, o *rlwe.Ciphertext) error {
 			e.(*c09Sys).rg.ExternalProduct(a, b.(*rgsw.Ciphertext), o)
+			return nil
+		}},
+		{name: "polynomial.Evaluate", op1: []int{vNone}, ks: []int{0, 1, 2}, needDeg1: true, deg: degOne, call: func(e any, a *rlwe.Ciphertext, b any, k int, o *rlwe.Ciphertext) error {
+			// k = 0: one polynomial on every slot; 1, 2: two polynomial vectors with different slot mappings
+			// (slots outside the mapping evaluate to zero)
+			res, err := e.(*c09Sys).bpol.Evaluate(a, bgvPolys[k], bp.DefaultScale())
+			if err != nil {
+				return err
+			}
+			o.Resize(res.Degree(), res.Level())
+			for i := range res.Value {
+				o.Value[i].CopyLvl(res.Level(), res.Value[i])
+			}
+			*o.MetaData = *res.MetaData
 			return nil
 		}},
 		{name: "MatchScalesAndLevel", op1: []int{vNone}, accum: true, mutatesOp0: true, deg: degSame, call: func(e any, a *rlwe.Ciphertext, b any, k int, o *rlwe.Ciphertext) error {
@@ -353,14 +407,14 @@ type c09CKKSCtx struct {
 	sk     *rlwe.SecretKey
 	pk     *rlwe.PublicKey
 	evk    *rlwe.MemEvaluationKeySet
-	lts    [2]cklt.LinearTransformation // without and with baby-step giant-step
+	lts    [4]cklt.LinearTransformation // without and with baby-step giant-step; then the main diagonal alone, both ways
 }
 
 func c09CKKS(ctx *core.RunCtx) *c09Scheme {
 	ch := ctx.Ch
 	var cc *c09CKKSCtx
 	for try := 0; ; try++ {
-		spec := catalog.DrawRLWESpec(ch, catalog.SpecOpts{MinLogN: 5, MaxLogN: 7, MinQ: 3, MaxQ: 5, MinP: 1, MaxP: 2, MinBits: 40, MaxBits: 58})
+		spec := catalog.DrawRLWESpec(ch, catalog.SpecOpts{MinLogN: 5, MaxLogN: 7, MinQ: 3, MaxQ: 6, MinP: 1, MaxP: 2, MinBits: 40, MaxBits: 58})
 		logScale := 30 + ch.Draw("log-scale", 12)
 		key := fmt.Sprintf("c09ckks/%s/S%d", spec.Key(), logScale)
 		c := ctx.Cached(key, func(*core.Xoshiro) any {
@@ -383,16 +437,24 @@ func c09CKKS(ctx *core.RunCtx) *c09Scheme {
 					diags[d][j] = complex(float64((j+d+7)%5)/8, float64((j*3+d+5)%3)/16)
 				}
 			}
-			var lts [2]cklt.LinearTransformation
-			for i, bsgs := range []int{-1, 1} {
-				ltp := cklt.Parameters{DiagonalsIndexList: diags.DiagonalsIndexList(), LevelQ: p.MaxLevel(), LevelP: p.MaxLevelP(), Scale: p.DefaultScale(),
+			var lts [4]cklt.LinearTransformation
+			main := cklt.Diagonals[complex128]{0: diags[0]}
+			for i, bsgs := range []int{-1, 1, -1, 1} {
+				dd := diags
+				if i >= 2 {
+					// a slot-wise multiplication expressed as a transformation: only the main diagonal
+					dd = main
+				}
+				ltp := cklt.Parameters{DiagonalsIndexList: dd.DiagonalsIndexList(), LevelQ: p.MaxLevel(), LevelP: p.MaxLevelP(), Scale: p.DefaultScale(),
 					LogDimensions: p.LogMaxDimensions(), LogBabyStepGiantStepRatio: bsgs}
 				lts[i] = cklt.NewTransformation(p, ltp)
-				if err := cklt.Encode(ckks.NewEncoder(p), diags, lts[i]); err != nil {
+				if err := cklt.Encode(ckks.NewEncoder(p), dd, lts[i]); err != nil {
 					return err
 				}
 				galEls = append(galEls, lts[i].GaloisElements(p)...)
 			}
+			// Average over the quarter-size batches: rotations by slots/4 and slots/2
+			galEls = append(galEls, p.GaloisElementsForInnerSum(slots/4, 4)...)
 			evk := rlwe.NewMemEvaluationKeySet(kgen.GenRelinearizationKeyNew(sk), kgen.GenGaloisKeysNew(galEls, sk)...)
 			return &c09CKKSCtx{params: p, sk: sk, pk: pk, evk: evk, lts: lts}
 		})
@@ -473,11 +535,40 @@ func c09CKKS(ctx *core.RunCtx) *c09Scheme {
 	scal := []int{vCt, vPt, vVecC, vVec, vC128, vF64, vInt, vU64, vBig, vBigF}
 	pol3 := bignum.NewPolynomial(bignum.Monomial, []float64{0.25, 0.5, -0.125, 0.0625}, nil)
 	polCheb := bignum.NewPolynomial(bignum.Chebyshev, []float64{0.1, 0.4, 0, -0.2, 0, 0.05}, [2]float64{-1, 1})
+	// degree 15 with one absent (nil) coefficient, given by the caller as coefficient pointers
+	c15 := make([]*bignum.Complex, 16)
+	for i := range c15 {
+		if i == 3 {
+			continue // absent: means zero
+		}
+		c15[i] = &bignum.Complex{new(big.Float).SetPrec(128).SetFloat64(0.5 / float64(i+2)), new(big.Float).SetPrec(128)}
+	}
+	polCheb15 := bignum.NewPolynomial(bignum.Chebyshev, c15, [2]float64{-1, 1})
+	var cslA, cslB, cslC []int
+	for i := 0; i < cp.MaxSlots(); i++ {
+		switch {
+		case i%2 == 0:
+			cslA = append(cslA, i)
+		case i%4 == 1:
+			cslB = append(cslB, i)
+		default:
+			cslC = append(cslC, i)
+		}
+	}
+	polB := bignum.NewPolynomial(bignum.Monomial, []float64{-0.5, 0.25, 0.125, 0.5}, nil)
+	cpvA, cerrA := ckpoly.NewPolynomialVector([]bignum.Polynomial{pol3, polB}, map[int][]int{0: cslA, 1: cslB})
+	cpvB, cerrB := ckpoly.NewPolynomialVector([]bignum.Polynomial{polB}, map[int][]int{0: cslC})
+	if cerrA != nil || cerrB != nil {
+		ctx.Harness("polynomial vectors: %v %v", cerrA, cerrB)
+	}
+	ckksPolys := []any{pol3, polCheb, cpvA, cpvB, polCheb15}
 	sc.ops = []c09Op{
 		{name: "Add", op1: scal, deg: degAdd, call: func(e any, a *rlwe.Ciphertext, b any, k int, o *rlwe.Ciphertext) error { return ev(e).Add(a, b, o) }},
 		{name: "Sub", op1: scal, deg: degAdd, call: func(e any, a *rlwe.Ciphertext, b any, k int, o *rlwe.Ciphertext) error { return ev(e).Sub(a, b, o) }},
 		{name: "Mul", op1: scal, deg: degMul, call: func(e any, a *rlwe.Ciphertext, b any, k int, o *rlwe.Ciphertext) error { return ev(e).Mul(a, b, o) }},
-		{name: "MulRelin", op1: scal, deg: degRelin, call: func(e any, a *rlwe.Ciphertext, b any, k int, o *rlwe.Ciphertext) error { return ev(e).MulRelin(a, b, o) }},
+		{name: "MulRelin", op1: scal, deg: degRelin, call: func(e any, a *rlwe.Ciphertext, b any, k int, o *rlwe.Ciphertext) error {
+			return ev(e).MulRelin(a, b, o)
+		}},
 		{name: "MulThenAdd", op1: []int{vCt, vPt, vVecC, vC128, vF64, vInt}, accum: true, deg: degMul, call: func(e any, a *rlwe.Ciphertext, b any, k int, o *rlwe.Ciphertext) error {
 			return ev(e).MulThenAdd(a, b, o)
 		}},
@@ -485,23 +576,34 @@ func c09CKKS(ctx *core.RunCtx) *c09Scheme {
 			return ev(e).MulRelinThenAdd(a, b, o)
 		}},
 		{name: "Rescale", op1: []int{vNone}, deg: degSame, call: func(e any, a *rlwe.Ciphertext, b any, k int, o *rlwe.Ciphertext) error { return ev(e).Rescale(a, o) }},
-		{name: "Relinearize", op1: []int{vNone}, deg: degOne, call: func(e any, a *rlwe.Ciphertext, b any, k int, o *rlwe.Ciphertext) error { return ev(e).Relinearize(a, o) }},
+		{name: "Relinearize", op1: []int{vNone}, deg: degOne, call: func(e any, a *rlwe.Ciphertext, b any, k int, o *rlwe.Ciphertext) error {
+			return ev(e).Relinearize(a, o)
+		}},
 		{name: "Rotate", op1: []int{vNone}, ks: c09Rotations, deg: degOne, call: func(e any, a *rlwe.Ciphertext, b any, k int, o *rlwe.Ciphertext) error { return ev(e).Rotate(a, k, o) }},
 		{name: "Conjugate", op1: []int{vNone}, deg: degOne, call: func(e any, a *rlwe.Ciphertext, b any, k int, o *rlwe.Ciphertext) error { return ev(e).Conjugate(a, o) }},
 		{name: "InnerSum", op1: []int{vNone}, ks: []int{1, 2}, needDeg1: true, deg: degOne, call: func(e any, a *rlwe.Ciphertext, b any, k int, o *rlwe.Ciphertext) error {
 			return ev(e).InnerSum(a, k, 4, o)
 		}},
-		{name: "lintrans.Evaluate", op1: []int{vNone}, ks: []int{0, 1}, needDeg1: true, deg: degOne, call: func(e any, a *rlwe.Ciphertext, b any, k int, o *rlwe.Ciphertext) error {
+		{name: "lintrans.Evaluate", op1: []int{vNone}, ks: []int{0, 1, 2, 3}, needDeg1: true, deg: degOne, call: func(e any, a *rlwe.Ciphertext, b any, k int, o *rlwe.Ciphertext) error {
 			return e.(*c09Sys).lt.Evaluate(a, cc.lts[k], o)
 		}},
-		{name: "polynomial.Evaluate", op1: []int{vNone}, ks: []int{0, 1}, needDeg1: true, deg: degOne, call: func(e any, a *rlwe.Ciphertext, b any, k int, o *rlwe.Ciphertext) error {
-			var p any = pol3
-			if k == 1 {
-				p = polCheb
-			}
+		{name: "Average", op1: []int{vNone}, needDeg1: true, deg: degOne, call: func(e any, a *rlwe.Ciphertext, b any, k int, o *rlwe.Ciphertext) error {
+			return ev(e).Average(a, cp.LogMaxSlots()-2, o)
+		}},
+		{name: "polynomial.Evaluate", op1: []int{vNone}, ks: []int{0, 1, 2, 3, 4}, needDeg1: true, deg: degOne, call: func(e any, a *rlwe.Ciphertext, b any, k int, o *rlwe.Ciphertext) error {
+			// k = 0, 1: one polynomial (monomial / Chebyshev basis); 2, 3: polynomial vectors with different slot
+			// mappings; 4: a sparse Chebyshev polynomial of degree 15 given by the caller as coefficient pointers
+			p := ckksPolys[k]
+			h := hashBigPoly(polCheb15)
 			res, err := e.(*c09Sys).poly.Evaluate(a, p, cp.DefaultScale())
+			if hashBigPoly(polCheb15) != h {
+				c09ArgModified = "the coefficients of the polynomial passed to polynomial.Evaluate"
+			}
 			if err != nil {
 				return err
+			}
+			if k == 4 {
+				ctx.Count("probe.sparse-chebyshev-degree-15-evaluated", 1)
 			}
 			o.Resize(res.Degree(), res.Level())
 			for i := range res.Value {
